@@ -447,6 +447,22 @@ theorem setNets_value_model_matches_translation (s : Nets) (limits cells : List 
       netView (BusySizes.execS BusySizes.noCallS (setArgs limits cells nxo nyo nwt) 0 f.body ⟨false, absSz s⟩).st.sz
         = netView (absSz (step s (.set limits cells nxo nyo nwt))) := setNets_refines s limits cells nxo nyo nwt
 
+/-- The value invariant implies the five net clauses of the size invariant on the abstraction: `netLimits_` non-empty, one
+weight per net, the three per-pin vectors of `nbPins() = netLimits_.back()` entries — the two invariants agree where they
+overlap. -/
+theorem nets_wf_implies_size_clauses (s : Nets) (h : Wf s) :
+    1 ≤ (absSz s).len "netLimits_" ∧ (absSz s).len "netWeights_" = (absSz s).nbNets ∧
+    (absSz s).len "pinCells_" = (absSz s).nbPins ∧ (absSz s).len "pinXOffsets_" = (absSz s).nbPins ∧
+    (absSz s).len "pinYOffsets_" = (absSz s).nbPins := by
+  have h1 := List.length_pos_iff.mpr h.nonempty
+  have h2 := h.wLen
+  have h3 := h.backPins
+  have h4 := h.xLen
+  have h5 := h.yLen
+  simp only [absSz, BusySizes.Sz.nbNets, BusySizes.Sz.nbPins]
+  simp
+  omega
+
 /-- non-vacuity: the table has an `addNet` entry -/
 example : (∃ f ∈ ApiSizes.setters, f.name = "addNet") ∧ ∃ f ∈ ApiSizes.setters, f.name = "setNets" := by decide
 
